@@ -111,3 +111,63 @@ Print Assumptions C04_assign_single_bit.
 Definition C04_full (emit : vopts -> nv -> vdoc) : Prop :=
   forall d n o, elab d = Ok n -> o_definition_list o = None -> o_write_blackbox o = true ->
     exists n', elab (emit o n) = Ok n' /\ same_netlist n n'.
+
+(* ---------------------------------------------------------------------------------------------------------------
+   The document-level WRITER (Fmt/VEmit.v emit : vopts -> nv -> wres vdoc, the model of Composer._compose; tied to
+   the composer on every C04 run by harness/verilog_emit.py: the text of the real composer, read token by token into
+   a vdoc, equals emit of the ordered value of the same netlist). Writer and reader compose: emit writes the document
+   type that VElab.elab reads.
+   Proved: the VERIFIED CHECKER of one round trip - rt_check o n = true certifies that the document written for n
+   under the options o is accepted by the reader and gives a netlist with the same top, and per written module the
+   same ordered ports (name, direction, width, lower index), the same instances (definition, parameters,
+   attributes) and bit by bit the same connectivity. The run evaluates rt_check (extracted) on every netlist it
+   writes and compares the verdict with the real write/read cycle; `writable` (the class of the general statement)
+   is evaluated too and must imply rt_check.
+   Not proved: the general statement C04_emit_roundtrip_full (for every writable value the round trip succeeds). *)
+From SV Require Import Fmt.VSpec Fmt.VEmit Proofs.VEmitRound.
+
+Theorem C04_emit_roundtrip_checked : forall o n,
+  rt_check o n = true -> exists d n', emit o n = WOk d /\ elab d = Ok n' /\ same_conn o n n'.
+Proof. exact rt_check_sound. Qed.
+Print Assumptions C04_emit_roundtrip_checked.
+
+(* the boolean comparison used by the checker decides the relation of the property *)
+Theorem C04_same_conn_decided : forall o n n', same_conn_b o n n' = true -> same_conn o n n'.
+Proof. exact same_conn_b_sound. Qed.
+Print Assumptions C04_same_conn_decided.
+
+Theorem C04_same_conn_def_decided : forall a b, same_conn_def_b a b = true -> same_conn_def a b.
+Proof. exact same_conn_def_sound. Qed.
+Print Assumptions C04_same_conn_def_decided.
+
+(* a three-level design (VEmitRound.ex_src: 4-bit and 3-bit buses, a concatenation on a partially connected port,
+   an unconnected port, a part select, an instance parameter, attributes, a single-bit assign) read by the reader
+   model, written by the writer model under two option sets (default; definition_list + defparam), read again *)
+From Coq Require Import String.
+Local Open Scope string_scope.
+Example C04_emit_roundtrip_witness :
+  match elab ex_src with
+  | Ok n =>
+      writable ex_opts n = true /\ rt_check ex_opts n = true /\ rt_check ex_opts_dp n = true /\
+      match emit ex_opts n with
+      | WOk (m :: _) =>
+          nth_error (vm_body m) 9 =
+            Some (IInst (S_ "sub") (S_ "u1") [(S_ "W", S_ "3")] []
+                    (CNamed [(S_ "x", Some (DCat [DBit (S_ "a") 1; DId (S_ "b")]));
+                             (S_ "z", Some (DAtom (DPart (S_ "t") 1 0))); (S_ "q", None)]))
+          /\ nth_error (vm_body m) 8 = Some (IAssign (DId (S_ "n1")) (DBit (S_ "a") 3))
+      | _ => False
+      end
+  | Err _ => False
+  end.
+Proof. vm_compute. repeat split; reflexivity. Qed.
+Local Close Scope string_scope.
+
+(* The statement at full strength for the modelled writer: on the decidable class `writable` (every port of a
+   written module has a direction and lies pin by pin on the cable of its own name; emit succeeds - which excludes
+   multi-bit assigns, unnamed ports and names that need escaping) the written document is accepted and gives the
+   same connectivity. NOT proved; on every run `writable o n = true -> rt_check o n = true` is evaluated on every
+   netlist written, and rt_check's verdict is a proof for that netlist (C04_emit_roundtrip_checked). *)
+Definition C04_emit_roundtrip_full : Prop :=
+  forall o n, wf_nv n -> writable o n = true ->
+    exists d n', emit o n = WOk d /\ elab d = Ok n' /\ same_conn o n n'.
